@@ -377,36 +377,131 @@ package ps
 //@     assert [timeout-is-error] done(ctx) ==> result.1 != nil
 //@     assert [checked] result.1 == nil ==> forall p uint16 :: p in tps.publicKeysOfParties && p != tps.Party ==> sha256(tps.publicKeysOfParties[p]) == string(tps.commitments[p])
 
+// ---- untrusted inputs at the signing-request and proof-verification entry points (C10): no panic whatever the bytes; ----
 // ---- verifying and signing are side-effect free (C09): none of these functions changes a group or field element, a slice or
 // ---- a struct that existed before the call (their arguments, the proof, the key, the public parameters)
-
-//@ func (*BlindCorrectFormProof).Verify
-//@   props C09
+//@ spec macro ppOK(pp PP) bool = pp.c != nil && pp.c.GenG1 != nil && pp.c.GenG2 != nil && pp.c.GroupOrder != nil && pp.g != nil && pp.g0 != nil && pp.g2 != nil && pp.g2Inverse != nil &&
+//@                               len(pp.gs) >= 1 && forall i int :: { pp.gs[i] } 0 <= i && i < len(pp.gs) ==> pp.gs[i] != nil
+//@ spec macro ppOKp(pp *PP) bool = pp != nil && pp.c != nil && pp.c.GenG1 != nil && pp.c.GenG2 != nil && pp.c.GroupOrder != nil && pp.g != nil && pp.g0 != nil && pp.g2 != nil && pp.g2Inverse != nil &&
+//@                               len(pp.gs) >= 1 && forall i int :: { pp.gs[i] } 0 <= i && i < len(pp.gs) ==> pp.gs[i] != nil
+//@ spec macro pkOK(pk PK) bool = pk.X != nil && forall i int :: { pk.Y[i] } 0 <= i && i < len(pk.Y) ==> pk.Y[i] != nil
+//@ spec macro psiOK(q *PoKofSignaturePoCorrectForm) bool = q.y != nil && q.Γ != nil && q.Φ != nil && forall i int :: { q.x[i] } 0 <= i && i < len(q.x) ==> q.x[i] != nil
+//@ spec macro allG2(s []*math.G2) bool = forall i int :: { s[i] } 0 <= i && i < len(s) ==> s[i] != nil
+//@ spec macro allG1(s []*math.G1) bool = forall i int :: { s[i] } 0 <= i && i < len(s) ==> s[i] != nil
+//@ spec macro allZr(s []*math.Zr) bool = forall i int :: { s[i] } 0 <= i && i < len(s) ==> s[i] != nil
+//@
+//@ func (*Verifier).Verify
+//@   props C10
+//@   requires v.c != nil && ppOK(v.pp) && pkOK(v.tpk)
+//@
+//@ func (*SigPoK).fromBytes
+//@   props C10
+//@   requires c != nil
+//@   modifies *sigPoK
+//@   ensures [parsed] result == nil ==> sigPoK.hε != nil && sigPoK.hPrimeε != nil && sigPoK.ν != nil && sigPoK.κ != nil &&
+//@                    sigPoK.ψ.y != nil && sigPoK.ψ.Γ != nil && sigPoK.ψ.Φ != nil && allZr(sigPoK.ψ.x)
+//@
+//@ func (*PoKofSignaturePoCorrectForm).fromBytes
+//@   props C10
+//@   requires c != nil
+//@   modifies *ψ
+//@   ensures [parsed] result == nil ==> ψ.y != nil && ψ.Γ != nil && ψ.Φ != nil && allZr(ψ.x)
+//@   loop 0: invariant 0 <= i && len(ψ.x) == len(rpscf.X) && ψ.y != nil && ψ.Γ != nil && ψ.Φ != nil && forall k int :: { ψ.x[k] } 0 <= k && k < i ==> ψ.x[k] != nil
+//@
+//@ func (*SigPoK).Verify
+//@   props C09 C10
+//@   requires [params] ppOKp(pp)
+//@   requires [key]    pkOK(pk)
+//@   requires [proof]  sigPoK.hε != nil && sigPoK.hPrimeε != nil && sigPoK.ν != nil && sigPoK.κ != nil &&
+//@                     sigPoK.ψ.y != nil && sigPoK.ψ.Γ != nil && sigPoK.ψ.Φ != nil && allZr(sigPoK.ψ.x)
 //@   modifies nothing
 //@
 //@ func (*PoKofSignaturePoCorrectForm).Verify
-//@   props C09
+//@   props C09 C10
+//@   requires c != nil && c.GenG2 != nil && psiOK(ψ) && ν != nil && hε != nil && g2 != nil && X != nil && κ != nil && allG2(Y)
 //@   modifies nothing
 //@
 //@ func (*PoKofSignaturePoCorrectForm).checkcommitmentForm
-//@   props C09
+//@   props C09 C10
+//@   requires c != nil && c.GenG2 != nil && psiOK(ψ) && e != nil && g2 != nil && X != nil && κ != nil && allG2(Y)
 //@   modifies nothing
-//@
-//@ func (*SigPoK).Verify
-//@   props C09
-//@   modifies nothing
-//@
-//@ func SignBlindSignature
-//@   props C09
-//@   modifies nothing
-//@
-//@ func randomOracleForBlindingProof
-//@   props C09
-//@   modifies nothing
+//@   loop 0: invariant 0 <= i && left != nil
 //@
 //@ func randomOracleForPoKofSignature
-//@   props C09
+//@   props C09 C10
+//@   requires Γ != nil && Φ != nil && ν != nil && hε != nil && g2 != nil && X != nil && κ != nil && allG2(Y)
 //@   modifies nothing
+//@
+//@ spec macro skOK(sk SK, n int) bool = sk.x != nil && len(sk.ys) == n && allZr(sk.ys)
+//@ spec macro proofOK(q BlindCorrectFormProof) bool = q.s != nil && q.z != nil && allZr(q.x) && allZr(q.y) && allG1(q.d) && allG1(q.f)
+//@ spec macro proofOKp(q *BlindCorrectFormProof) bool = q.s != nil && q.z != nil && allZr(q.x) && allZr(q.y) && allG1(q.d) && allG1(q.f)
+//@ spec macro bsOK(bs BlindSignature) bool = bs.cm != nil && bs.u != nil && bs.mPrime != nil && allG1(bs.a) && allG1(bs.b) && proofOK(bs.ξ)
+//@
+//@ // the signing entry point: msg comes from an untrusted client
+//@ func (*TPS).Sign
+//@   props C10
+//@   requires tps.Curve != nil && ppOK(tps.pp) && skOK(tps.sk, len(tps.pp.gs))
+//@
+//@ func (*BlindSignature).fromBytes
+//@   props C10
+//@   requires c != nil
+//@   modifies *bs
+//@   ensures [parsed] result == nil ==> bs.cm != nil && bs.u != nil && bs.mPrime != nil && allG1(bs.a) && allG1(bs.b) && proofOK(bs.ξ)
+//@   loop 0: invariant [shape]  0 <= i && len(bs.a) == len(rbs.A) && bs.cm != nil && bs.u != nil && bs.mPrime != nil
+//@   loop 0: invariant [proof]  proofOK(bs.ξ)
+//@   loop 0: invariant [points] forall k int :: { bs.a[k] } 0 <= k && k < i ==> bs.a[k] != nil
+//@   loop 1: invariant [shape]  0 <= i && len(bs.b) == len(rbs.B) && bs.cm != nil && bs.u != nil && bs.mPrime != nil
+//@   loop 1: invariant [proof]  proofOK(bs.ξ)
+//@   loop 1: invariant [a]      allG1(bs.a)
+//@   loop 1: invariant [points] forall k int :: { bs.b[k] } 0 <= k && k < i ==> bs.b[k] != nil
+//@
+//@ func (*BlindCorrectFormProof).fromBytes
+//@   props C10
+//@   requires c != nil && ξ.x == nil && ξ.y == nil && ξ.d == nil && ξ.f == nil
+//@   modifies *ξ
+//@   ensures [parsed] result == nil ==> proofOKp(ξ)
+//@   ensures [allocated] allocated(ξ.x) && allocated(ξ.y) && allocated(ξ.d) && allocated(ξ.f)
+//@   loop 0: invariant [base] 0 <= i && ξ.s != nil && ξ.z != nil && ξ.y == nil && ξ.d == nil && ξ.f == nil && (ξ.x == nil || fresh(ξ.x)) && allocated(ξ.x)
+//@   loop 0: invariant [x]    allZr(ξ.x)
+//@   loop 1: invariant [base] 0 <= i && ξ.s != nil && ξ.z != nil && ξ.d == nil && ξ.f == nil && (ξ.x == nil || fresh(ξ.x)) && allocated(ξ.x) && allocated(ξ.y) && (ξ.y == nil || fresh(ξ.y) && !sameArray(ξ.x, ξ.y))
+//@   loop 1: invariant [x]    allZr(ξ.x)
+//@   loop 1: invariant [y]    allZr(ξ.y)
+//@   loop 2: invariant [base] 0 <= i && ξ.s != nil && ξ.z != nil && ξ.f == nil && (ξ.d == nil || fresh(ξ.d)) && allocated(ξ.d)
+//@   loop 2: invariant [xy]   allZr(ξ.x) && allZr(ξ.y)
+//@   loop 2: invariant [d]    allG1(ξ.d)
+//@   loop 3: invariant [base] 0 <= i && ξ.s != nil && ξ.z != nil && (ξ.d == nil || fresh(ξ.d)) && allocated(ξ.d) && allocated(ξ.f) && (ξ.f == nil || fresh(ξ.f) && !sameArray(ξ.d, ξ.f))
+//@   loop 3: invariant [xy]   allZr(ξ.x) && allZr(ξ.y)
+//@   loop 3: invariant [d]    allG1(ξ.d)
+//@   loop 3: invariant [f]    allG1(ξ.f)
+//@
+//@ func (*BlindCorrectFormProof).Verify
+//@   props C09 C10
+//@   requires c != nil && proofOKp(ξ) && allG1(a) && allG1(b) && cm != nil && g != nil && g0 != nil && h != nil && u != nil && allG1(gs) && 0 <= n && n <= len(gs)
+//@   modifies nothing
+//@   ensures [counts] result == nil ==> len(a) == n && len(b) == n
+//@   loop 0: invariant 0 <= i
+//@   loop 1: invariant 0 <= i
+//@   loop 2: invariant 0 <= i && right != nil
+//@
+//@ func SignBlindSignature
+//@   props C09 C10
+//@   requires ppOKp(pp) && bsOK(σ) && skOK(sk, len(pp.gs))
+//@   modifies nothing
+//@   ensures [signature] result.1 == nil ==> result.0 != nil && result.0.a != nil && result.0.b != nil
+//@   loop 0: invariant 0 <= i && a != nil
+//@   loop 1: invariant 0 <= i && b != nil
+//@
+//@ func randomOracleForBlindingProof
+//@   props C09 C10
+//@   requires 0 <= n && n <= len(d) && n <= len(f) && n <= len(a) && n <= len(b) && n <= len(gs) && allG1(d) && allG1(f) && allG1(a) && allG1(b) && allG1(gs) &&
+//@            s != nil && cm != nil && g != nil && g0 != nil && h != nil && u != nil
+//@   modifies nothing
+//@   loop 0: invariant 0 <= i
+//@   loop 1: invariant 0 <= i
+//@
+//@ func (*Signature).Bytes
+//@   props C10
+//@   requires sig.a != nil && sig.b != nil
 //@
 //@ func UnBlind
 //@   props C09
